@@ -104,6 +104,43 @@ def worlds(tier):
                 for depth, opts in ((20, dict(tag="PS")), (6, dict(tag="PS", max_coverage=2)), (6, dict(tag="HP", max_coverage=3)), (3, dict(tag="PS", max_coverage=1))):
                     wid += 1
                     yield make_world(wid, tv, [hp], hk if design % 2 == 0 else hk[::-1], 4, depth=depth), opts
+    # clipped alignments: leading / trailing hard and soft clips of various lengths on every read
+    for tv in [(("SNV", 1), ("SNV", 1), ("SNV", 1)), (("INS", 2), ("SNV", 1), ("DEL", 2)), (("MNP", 2), ("DEL", 1), ("SNV", 1))]:
+        k = 3
+        kinds = read_kinds(k)
+        for hp in [(0, 0, 0), (0, 1, 0), (0, 0, 1), (0, 1, 1)]:
+            for (ka, ha), (kb, hb) in itertools.product([(kinds[0], 0), (kinds[2], 1)], [(kinds[1], 1), (kinds[2], 0), (kinds[1], 0)]):
+                for lead in (("H", 3), ("H", 11), ("H", 25), ("S", 4), ("S", 12), None):
+                    for trail in (None, ("H", 9), ("S", 7)):
+                        if lead is None and trail is None:
+                            continue
+                        for margin in (2, 15):
+                            wid += 1
+                            w = make_world(wid, tv, [hp], [(ka, ha), (kb, hb)], margin, depth=1)
+                            for r in w["reads"]:
+                                if lead:
+                                    r["lead_clip"] = list(lead)
+                                if trail:
+                                    r["trail_clip"] = list(trail)
+                            yield w, dict(tag="PS")
+                            if all(t == "SNV" for t, _ in tv) and margin == 15:
+                                yield w, dict(tag="PS", reference=False)
+    # several alignment files for one sample; read names are unique within a file only
+    for tv in [(("SNV", 1),) * 4, (("SNV", 1), ("INS", 1), ("SNV", 1), ("DEL", 1))]:
+        k = 4
+        for hp in [p for p in itertools.product((0, 1), repeat=k) if p[0] == 0]:
+            for design in range(4):
+                wid += 1
+                # file 1: reads over variants (0,1) and (2,3); file 2: reads over (1,2), (0,1) ... same names r1, r2, ...
+                f1 = [((((0, 1),), "N"), 0), ((((2, 3),), "N"), 1), ((((0, 1),), "N"), 1)]
+                f2 = [((((2, 3),), "N"), 1 if design % 2 else 0), ((((0, 1),), "N"), 0 if design % 2 else 1), ((((1, 2),), "N"), design // 2), ((((1, 2),), "N"), 1 - design // 2)]
+                w = make_world(wid, tv, [hp], f1, 6, depth=1)
+                w2 = make_world(wid, tv, [hp], f2, 6, depth=1)
+                for r in w2["reads"]:
+                    r["bam"] = 1
+                w["reads"] += w2["reads"]
+                yield w, dict(tag="PS")
+                yield w, dict(tag="HP")
     # two chromosomes, one phased per chromosome list
     for hp in [(0, 0, 0), (0, 1, 0), (0, 1, 1), (0, 0, 1)]:
         for opts in (dict(tag="PS"), dict(tag="PS", chromosomes=["chrB"]), dict(tag="HP", chromosomes=["chrA"])):
